@@ -77,9 +77,13 @@ def swap_parity(spelling: str, canon: str) -> int:
     return sum(1 for i in range(len(seq)) for j in range(i + 1, len(seq)) if seq[i] > seq[j])
 
 
-def rep_algebra(d: int = 3, graded: bool = False, extra_attrs=None, extra_methods=None, r: int = 0) -> Obj:
-    c2b = default_canon2bin(d)
-    b2c = {b: n for n, b in sorted(c2b.items(), key=lambda x: x[1])}
+def rep_algebra(d: int = 3, graded: bool = False, extra_attrs=None, extra_methods=None, r: int = 0, basis=None) -> Obj:
+    if basis is not None:
+        from .products import basis_maps
+        c2b, b2c, _ = basis_maps(basis)
+    else:
+        c2b = default_canon2bin(d)
+        b2c = {b: n for n, b in sorted(c2b.items(), key=lambda x: x[1])}
 
     def blade2canon(name):
         if name in c2b:
